@@ -351,6 +351,19 @@ func init() {
 					}
 				}
 			}
+			// single lines and single lexical items of 100 KiB ... 1.1 MiB (no line end inside): strings, comments, blanks, names,
+			// digits, operators — through the in-memory and the file entry points
+			for _, n := range []int{100000, 262143, 262144, 262145, 300000, 524288, 600000, 1100000} {
+				for name, item := range map[string]string{"string": `"` + strings.Repeat("s", n) + `"`, "comment": "#" + strings.Repeat("c", n), "blanks": strings.Repeat(" ", n) + "1",
+					"name": strings.Repeat("n", n), "digits": strings.Repeat("7", n), "sum": strings.Repeat("1+", n/2) + "1", "crs": strings.Repeat("\r", n) + "1"} {
+					if n > 300000 && (name == "sum" || name == "digits") {
+						continue
+					}
+					for _, file := range []int{0, 1 << 30} {
+						c.Do(subC06, &c06Case{Name: fmt.Sprintf("longline-%s-%d", name, n), Src: "print 1\nprint " + item + "\nprint 2", File: file})
+					}
+				}
+			}
 			// (c) deviations of K
 			devBase := gen.Core()
 			if c.Quick() {
